@@ -220,9 +220,29 @@ theorem match_order_independent (as bs : List (List τ)) (h : as.Perm bs) (q : L
   · rintro ⟨a, ha, haq⟩; exact ⟨a, h.mem_iff.1 ha, haq⟩
   · rintro ⟨a, ha, haq⟩; exact ⟨a, h.mem_iff.2 ha, haq⟩
 
+/-- a query whose FIRST token starts none of the added keys is not matched.  For hostnames the
+first token is the LAST label: the TLD — or the empty label that a trailing dot (`a.b.`) or an
+empty label (`a..b`) leaves behind `split('.')`: labels are compared as they are, the empty ones
+included, so a host spelled with a trailing dot is covered only by adds spelled with one (and
+vice versa).  The class does not normalise this away (`match_url_trailing_dot` below). -/
+theorem match_needs_first_token (as : List (List τ)) (x : τ) (q : List τ)
+    (h : ∀ a ∈ as, a ≠ [] ∧ a.head? ≠ some x) : matchTok (adds as) (x :: q) = false := by
+  cases hm : matchTok (adds as) (x :: q) with
+  | false => rfl
+  | true =>
+    obtain ⟨a, ha, hpre⟩ := (match_spec as (x :: q)).1 hm
+    obtain ⟨h1, h2⟩ := h a ha
+    cases a with
+    | nil => exact absurd rfl h1
+    | cons y ys =>
+      have := (List.cons_prefix_cons.1 hpre).1
+      subst this
+      exact absurd rfl h2
+
 theorem mem_prefixes_iff (t : TNode τ Bool) (S : List (List τ)) (hi : Inv t) (h : Rep t S)
     (p : List τ) : p ∈ t.prefixes ↔ IsMinimal S p := by
-  simp only [prefixes, List.mem_map]
+  rw [mem_prefixes]
+  simp only [List.mem_map]
   constructor
   · rintro ⟨⟨p', v⟩, hm, rfl⟩
     have := (mem_items t hi.1 p' v).1 hm
@@ -242,7 +262,7 @@ theorem iter_spec (as : List (List τ)) :
     (∀ p, p ∈ (adds as).prefixes ↔ (p ∈ as ∧ ∀ b ∈ as, b <+: p → b = p)) := by
   have hi := adds_inv as
   have hr := adds_rep as
-  have hnd : (adds as).prefixes.Nodup := nodup_items_keys _ hi.1
+  have hnd : (adds as).prefixes.Nodup := nodup_prefixes _ hi.1
   refine ⟨?_, hnd, fun p => mem_prefixes_iff _ _ hi hr p⟩
   rw [List.perm_ext_iff_of_nodup hnd (nodup_minimalKeys as)]
   intro p
@@ -252,8 +272,8 @@ theorem iter_spec (as : List (List τ)) :
 minimal adds (an add repeated several times counts once) -/
 theorem len_spec (as : List (List τ)) : (adds as).len = (minimalKeys as).length := by
   have hi := adds_inv as
-  rw [C10.len_spec _ hi.1, ← (iter_spec as).1.length_eq]
-  simp [prefixes]
+  rw [C10.len_spec _ hi.1, ← (iter_spec as).1.length_eq, (prefixes_perm _).length_eq]
+  simp
 
 /-- `len` and the set of stored keys do not depend on the order of the adds either -/
 theorem len_iter_order_independent (as bs : List (List τ)) (h : as.Perm bs) :
@@ -268,7 +288,8 @@ theorem len_iter_order_independent (as bs : List (List τ)) (h : as.Perm bs) :
   refine ⟨?_, hp⟩
   rw [C10.len_spec _ (adds_inv as).1, C10.len_spec _ (adds_inv bs).1]
   have := hp.length_eq
-  simpa [prefixes] using this
+  rw [(prefixes_perm _).length_eq, (prefixes_perm _).length_eq] at this
+  simpa using this
 
 /-- hostnames never tokenise to the empty key, so the root carries no value and `len` is the
 root counter (the value `TrieDict.__len__` returned before the empty key was counted) -/
@@ -362,14 +383,91 @@ theorem tok_lower (h : Str) : tok puny (lower h) = tok puny h :=
 /-- **punycode vs Unicode.**  Under `PunyLaws`: a host name spelled with punycode labels
 (`xn--…`) and the same host name with those labels spelled in Unicode (each label replaced by
 what the codec decodes it to) tokenise identically.  `ls` are the labels of the host name
-(lower-case, dot-free, unpadded), and so must be their decoded forms. -/
+(lower-case, dot-free, unpadded: `CleanLabel`); that their decoded forms are clean too is the law
+`PunyLaws.clean` (evaluated on the real codec on every run), no longer a hypothesis. -/
 theorem tok_punycode_unicode (laws : PunyLaws puny) (ls : List Str) (hne : ls ≠ [])
-    (hc : ∀ l ∈ ls, CleanLabel l) (hd : ∀ l ∈ ls, CleanLabel (punyPart puny l)) :
+    (hc : ∀ l ∈ ls, CleanLabel l) :
     tok puny (join ['.'] (ls.map (punyPart puny))) = tok puny (join ['.'] ls) := by
   rw [tok_join puny ls hne hc,
     tok_join puny (ls.map (punyPart puny)) (by simpa using hne)
-      (by intro l hl; obtain ⟨x, hx, rfl⟩ := List.mem_map.1 hl; exact hd x hx),
+      (by intro l hl; obtain ⟨x, hx, rfl⟩ := List.mem_map.1 hl
+          exact punyPart_clean puny laws x (hc x hx)),
     tokLabels_decoded puny laws]
+
+/-- **iteration yields every hostname once, as a STRING.**  `join_hostname` is injective on
+non-empty keys of dot-free labels (`joinHostname_injective`), every token of a hostname is
+dot-free (`tok_dot_free`, law `PunyLaws.no_dot`) and no hostname tokenises to the empty key: the
+strings `__iter__` yields are pairwise distinct — and they are (`len_iter_url_spec`) the minimal
+added hostnames joined back with dots. -/
+theorem iter_url_nodup (laws : PunyLaws puny) (hs : List Str)
+    (hord : ∀ h ∈ hs, special h = false) :
+    (iter (addsHost special puny hs)).Nodup ∧
+    (iter (addsHost special puny hs)).length = HostnameTrieSet.len (addsHost special puny hs) := by
+  have hlen := (len_iter_url_spec special puny hs hord)
+  refine ⟨?_, by rw [hlen.1, hlen.2.length_eq]; simp⟩
+  rw [addsHost_eq special puny hs hord]
+  unfold iter
+  have hspec := iter_spec (hs.map (tok puny))
+  have hmem : ∀ p ∈ (adds (hs.map (tok puny))).prefixes, p ≠ [] ∧ ∀ l ∈ p, '.' ∉ l := by
+    intro p hp
+    obtain ⟨hin, _⟩ := (hspec.2.2 p).1 hp
+    obtain ⟨h, _, rfl⟩ := List.mem_map.1 hin
+    exact ⟨tok_ne_nil puny h, tok_dot_free puny laws h⟩
+  have hnd := hspec.2.1
+  rw [List.nodup_iff_pairwise_ne] at hnd ⊢
+  rw [List.pairwise_map]
+  exact hnd.imp_of_mem (fun ha hb hab e => hab (joinHostname_injective _ _
+    (hmem _ ha).1 (hmem _ hb).1 (hmem _ ha).2 (hmem _ hb).2 e))
+
+/-! ### trailing dot, empty labels: compared as they are -/
+
+theorem join_append_empty (ls : List Str) (hne : ls ≠ []) :
+    join ['.'] (ls ++ [[]]) = join ['.'] ls ++ ['.'] := by
+  induction ls with
+  | nil => exact absurd rfl hne
+  | cons l rest ih =>
+    cases rest with
+    | nil => simp [join]
+    | cons l2 rest2 =>
+      have := ih (by simp)
+      simp only [List.cons_append, join] at this ⊢
+      rw [this]; simp
+
+/-- a trailing dot is one more (empty) label at the TLD end of the key: `"a.b."` tokenises to
+`["", "b", "a"]` — the class does not strip it -/
+theorem tok_trailing_dot (ls : List Str) (hne : ls ≠ []) (hc : ∀ l ∈ ls, CleanLabel l) :
+    tok puny (join ['.'] ls ++ ['.']) = [] :: tok puny (join ['.'] ls) := by
+  have hc' : ∀ l ∈ ls ++ [[]], CleanLabel l := by
+    intro l hl
+    rcases List.mem_append.1 hl with h | h
+    · exact hc l h
+    · have : l = [] := by simpa using h
+      subst this; decide
+  rw [← join_append_empty ls hne, tok_join puny _ (by simp) hc', tok_join puny ls hne hc]
+  simp [tokLabels, punyPart, hasHeader, punyHeader, lower, acePrefix]
+
+/-- **what `match` does with a trailing dot / an empty last label**: after adds none of which
+ends with an empty label (no trailing dot), a URL whose hostname does is NOT matched — even when
+the same hostname without the dot was added.  (Symmetrically, by `match_needs_first_token`, an
+add spelled `a.b.` covers only hosts spelled with the trailing dot.)  Hostnames with a trailing
+dot or an empty label are outside the property's quantifier (labels over an alphabet); this is
+the behaviour of the code as it is, stated, not an invariance. -/
+theorem match_url_trailing_dot (hs : List Str) (hord : ∀ h ∈ hs, special h = false)
+    (hnd : ∀ h ∈ hs, (tok puny h).head? ≠ some [])
+    (host : Str) (hne : host ≠ []) (hq : special host = false)
+    (hhost : (tok puny host).head? = some []) :
+    matchHost special puny (addsHost special puny hs) (some host) = false := by
+  rw [(match_def special puny _ host hne hq).1, addsHost_eq special puny hs hord]
+  cases ht : tok puny host with
+  | nil => rw [ht] at hhost; cases hhost
+  | cons x q =>
+    rw [ht] at hhost
+    simp only [List.head?_cons, Option.some.injEq] at hhost
+    subst hhost
+    apply match_needs_first_token
+    intro a ha
+    obtain ⟨h, hh, rfl⟩ := List.mem_map.1 ha
+    exact ⟨tok_ne_nil puny h, hnd h hh⟩
 
 end Url
 
@@ -443,6 +541,15 @@ theorem match_url_string_spec (hs : List Str) (hord : ∀ h ∈ hs, special h = 
   · rintro ⟨a, ⟨h, hh', rfl⟩, ha⟩; exact ⟨h, hh', ha⟩
   · rintro ⟨h, hh', ha⟩; exact ⟨_, ⟨h, hh', rfl⟩, ha⟩
 
+/-- an authority that holds a character whose NFKC form contains one of `/ ? # @ :` (U+FF0F,
+U+FF1A, U+2100 …) is refused by `urlsplit` (`_checknetloc`): `match` raises `ValueError` — it does
+not answer for a host such as `ａ／b.com`.  (`NetlocChars` in the theorems above excludes exactly
+these characters.) -/
+theorem match_url_nfkc_rejected (t : T) (l : Lead) (nl rest : Str) (hl : l.Ok (nl ++ rest))
+    (hnl : NetlocSyntax nl) (hr : RestOk rest) (hx : nfkcRejects nl = true) :
+    matchUrl special puny t (l.str ++ nl ++ rest) = .error .valueError :=
+  (match_url_via_host special puny t _).2.1 _ (urlHost_lead_nfkc l nl rest hl hnl hr hx)
+
 /-- two URLs whose hosts differ in ASCII letter case only get the same answer -/
 theorem match_url_invariance (t : T)
     (l l' : Lead) (ui ui' : Option Str) (host host' : Str) (port port' : Option Str)
@@ -476,7 +583,7 @@ example :
       matchTok (adds as) ["fr", "lemonde", "www", "x"] = true ∧
       matchTok (adds as) ["fr"] = false ∧ matchTok (adds as) ["fr", "lemondes"] = false ∧
       matchTok (adds (as.take 2)) ["fr", "lemonde"] = false ∧
-      (adds as).prefixes = [["fr", "lemonde"], ["net", "lacamargue"]] ∧
+      (adds as).prefixes = [["net", "lacamargue"], ["fr", "lemonde"]] ∧
       minimalKeys as = [["fr", "lemonde"], ["net", "lacamargue"]] := by
   decide
 
@@ -485,11 +592,14 @@ def punyDemo (l : Str) : Str :=
   if l = "xn--tlrama-bvab".toList then "télérama".toList else l
 
 theorem punyLaws_demo : PunyLaws punyDemo := by
-  refine ⟨fun l _ => ?_⟩
-  unfold punyDemo
-  by_cases h : l = "xn--tlrama-bvab".toList
+  refine ⟨fun l _ => ?_, fun l _ hd => ?_, fun l _ hc => ?_⟩ <;> unfold punyDemo <;>
+    by_cases h : l = "xn--tlrama-bvab".toList
   · right; rw [if_pos h]; decide
   · left; rw [if_neg h]
+  · rw [if_pos h]; decide
+  · rw [if_neg h]; exact hd
+  · rw [if_pos h]; decide
+  · rw [if_neg h]; exact hc
 
 example :
     tok punyDemo " XN--tlrama-BVAB.Fr ".toList = ["fr".toList, "télérama".toList] ∧
@@ -501,6 +611,19 @@ example :
       = ["fr".toList] := by
   decide
 
+/-- trailing dot: the query `a.b.` is not covered by the add `a.b`, nor `a.b` by the add `a.b.` -/
+example :
+    tok punyDemo "a.b.".toList = ["".toList, "b".toList, "a".toList] ∧
+    matchHost (fun _ => false) punyDemo (addsHost (fun _ => false) punyDemo ["a.b".toList])
+      (some "a.b.".toList) = false ∧
+    matchHost (fun _ => false) punyDemo (addsHost (fun _ => false) punyDemo ["a.b.".toList])
+      (some "a.b".toList) = false ∧
+    matchHost (fun _ => false) punyDemo (addsHost (fun _ => false) punyDemo ["a.b.".toList])
+      (some "www.a.b.".toList) = true ∧
+    matchUrl (fun _ => false) punyDemo (addsHost (fun _ => false) punyDemo ["a.b".toList])
+      "http://a.b./p".toList = .ok false := by
+  refine ⟨?_, ?_, ?_, ?_, ?_⟩ <;> decide +kernel
+
 example :
     matchUrl (fun _ => false) punyDemo
       (addsHost (fun _ => false) punyDemo ["xN--tlrama-bvAb.fr".toList])
@@ -510,7 +633,9 @@ example :
       = .ok false ∧
     matchUrl (fun _ => false) punyDemo (addsHost (fun _ => false) punyDemo ["fr".toList]) "/fr".toList
       = .ok false ∧
-    matchUrl (fun _ => false) punyDemo new "http://[fr/".toList = .error .valueError := by
-  refine ⟨?_, ?_, ?_, ?_⟩ <;> decide +kernel
+    matchUrl (fun _ => false) punyDemo new "http://[fr/".toList = .error .valueError ∧
+    matchUrl (fun _ => false) punyDemo (addsHost (fun _ => false) punyDemo ["fr".toList])
+      "http://a／b.fr/".toList = .error .valueError := by
+  refine ⟨?_, ?_, ?_, ?_, ?_⟩ <;> decide +kernel
 
 end Ural.Props.C09
